@@ -157,8 +157,10 @@ fn unit_stream(rng: &mut Rng, cases: &mut Cases, thorough: bool) {
             let imp = match &out { Ok((k, o)) => format!("k:{} o:{}", ints_tok(k), ops_tok(o)), Err(_) => "panic".into() };
             cases.push("unit:dedup:exhaustive", &format!("dedup {} {} {}", ints_tok(&l), ints_tok(&r), imp), &imp, "");
         } }
-        let vals = [1i64, i64::MAX - 1, -5];
-        for op in ops { for a in 1u32..8 { for b in 1u32..8 { for c in 1u32..8 {
+        for op in ops {
+          // partial counts are small and non-negative (a count near i64::MAX cannot arise); the others probe the overflow / sentinel edge
+          let vals = if op == "count" { [1i64, 2, 0] } else { [1i64, i64::MAX - 1, -5] };
+          for a in 1u32..8 { for b in 1u32..8 { for c in 1u32..8 {
             let mk = |m: u32, shift: usize| -> Part { let ks: Vec<i64> = (0..3).filter(|i| m >> i & 1 == 1).map(|i| i as i64).collect();
                 let vs = ks.iter().map(|k| vals[(*k as usize + shift) % 3]).collect(); (vec![ks], vs) };
             let parts = vec![mk(a, 0), mk(b, 1), mk(c, 2)];
@@ -337,8 +339,10 @@ fn run_table(rng: &mut Rng, cases: &mut Cases, tag: &str, t: &LTable, r: &Realis
         let mut fns: Vec<char> = sel.iter().filter(|s| !matches!(s, Sel::Key(_))).map(|s| s.tok().chars().next().unwrap()).collect();
         fns.sort(); fns.dedup();
         let class = format!("{}:{}{}|{}|p{}{}", tag, kclass, if nullable_key { "?" } else { "" }, fns.iter().collect::<String>(), meta.len(), if pred.is_some() { "|w" } else { "" });
-        let line = format!("grp {} {} {} {} {} {} {}", sel.iter().map(|s| s.tok()).collect::<Vec<_>>().join(","),
-            match pred { Some(p) => p.rpn(), None => "-".into() }, imp, bounds_tok, meta_tok, phys_tok(r), ttok);
+        // signature of a worker panic (part of the observed outcome; two executor defects are classified by it)
+        let sig = if detail.contains("Trying to mutably borrow pinned buffer") { "pinned" } else if detail.contains("EmptyVector.cast_ref") { "emptyvec" } else if detail.contains("panicked at") { "other" } else { "-" };
+        let line = format!("grp {} {} {} {} {} {}/{} {}", sel.iter().map(|s| s.tok()).collect::<Vec<_>>().join(","),
+            match pred { Some(p) => p.rpn(), None => "-".into() }, imp, bounds_tok, meta_tok, phys_tok(r), sig, ttok);
         cases.push(&class, &line, &imp, &format!("{} | {} | {} | {}", q, t.type_tag(), r.tag(), detail));
     }
 }
@@ -383,6 +387,9 @@ fn corpus(rng: &mut Rng, cases: &mut Cases) {
     let t = table(vec![("id", ColType::Id, ints(&(0..16).collect::<Vec<i64>>())), ("k0", ColType::Int("wide"), ints(&wide)), ("k1", ColType::Int("small"), ints(&(0..16).map(|i| i % 3).collect::<Vec<i64>>()))]);
     let mut r = fixed_realisation(vec![0, 16], 0); r.mem_lz4 = true;
     run_table(rng, cases, "corpus:groupby-compressed-key-type", &t, &r, &[(vec![key(1), key(2), Sel::Count1], None)]);
+    // open: executor-pinned-buffer (worker panic; classified by its message)
+    let t = table(vec![("id", ColType::Id, ints(&[0, 1])), ("k0", ColType::Int("small"), ints(&[0, -1])), ("v0", ColType::Int("small"), opt_ints(&[Some(2), None]))]);
+    run_table(rng, cases, "corpus:executor-pinned-buffer", &t, &fixed_realisation(vec![0, 2], 0), &[(vec![Sel::Agg('M', 2), key(1), Sel::Agg('m', 1), Sel::Count1], None)]);
     // fixed in /repo (must pass): range wider than i64 (DESIGN §8 #9), WHERE + several grouping columns (filter applied twice),
     // key = 2^62 (float log2 width), nullable u8 / u16 key containing the type maximum, more than 63 bits of keys
     let t = table(vec![("id", ColType::Id, ints(&[0, 1, 2, 3, 4, 5, 6, 7])), ("k0", ColType::Int("big"), ints(&[i64::MIN + 1, -1, 0, 1, 5, 6, 7, i64::MAX - 1])), ("k1", ColType::Int("small"), ints(&[1, 1, 1, 2, 2, 2, 2, 2]))]);
